@@ -6,6 +6,7 @@ import Ptn.C10.Tree
 import Ptn.C10.Projector
 import Ptn.C10.Value
 import Ptn.C10.ValueRun
+import Ptn.C10.BondDim
 /-! Property theorems for C10 (selection rule of the singular-value truncation).  Only property
 theorems and non-vacuity examples live here; helper lemmas are in `Lemmas.lean`, the
 specification vocabulary (`Desc`, `NonNeg`, `survives`, `Fits`, `capMin`, `renormFactor`) in
@@ -407,6 +408,86 @@ example : ∀ t, t < 2 → ‖(fun n : ℕ => (1 : ℝ) - n) t - (fun n : ℕ =>
     ≤ 1 * Real.sqrt (∑ i ∈ Finset.range 1, (fun _ _ => (1 : ℝ)) t i ^ 2) := by
   intro t _
   simp
+
+/-! ### "Leaves every bond within the maximum" on the structural model (partial) -/
+
+section bond_dims
+open Ptn.C02
+
+/-- **Every bond within `max_bond_dim`, partial.**  `spec c` is the spectrum `truncate_singular_values` is given
+    for the bond above the child `c` (any non-empty, non-negative, descending list), `p` any valid parameter
+    object with `max_bond_dim = D`; the kept dimensions fed into the structural model of `recursive_truncation`
+    (`Ptn.C02.TTN.recursiveTruncation`) are the ones the selection model `truncate` produces, `keptDim (spec c) p`.
+    PROVED: every kept dimension is between 1 and `D` (and at most the length of its spectrum); the structural
+    conclusions of `recursive_truncation_core_structure`; and, GIVEN `hbond`, every virtual leg of every node of the
+    result has dimension `≤ D`.
+    *Missing* (`hbond`, an explicit hypothesis, decided by evaluation on concrete networks - example below - and by the
+    oracle on every run of the real routine): that in the structural model every bond axis of the result carries one
+    of the kept dimensions, i.e. that `insertProjectors` / `contractAllChildren` move the fresh axis `⟨label, kdim c⟩`
+    of `splitNodes` to the two ends of the bond `c - parent c` and remove the old axis.  (`t'.legPairs k = []` for every
+    `k` that is not a node, so the quantification over the node list loses nothing.)  The `svd_truncation` analogue is
+    not stated: there the QR moves after a `contract_and_split_with_parent` take their dimension as an input of the
+    model as well, and bounding it needs `min(rows, columns) ≤ old bond dimension`, which the structural model does
+    not contain. -/
+theorem recursive_truncation_bonds_le_partial {t t' : TTN} (spec : Id → List Rat) (p : Params) (D : Nat)
+    (hp : p.Valid) (hD : p.maxBond = some D)
+    (hspec : ∀ c, spec c ≠ [] ∧ NonNeg (spec c) ∧ Desc (spec c))
+    (h : t.WF) (hl : t.LWF)
+    (hs : t.recursiveTruncation (fun c => keptDim (spec c) p) = some t')
+    (hbond : ∀ e ∈ t'.nodes, ∀ q ∈ t'.legPairs e.1, ∃ c', q.2.dim = keptDim (spec c') p) :
+    (∀ c, 1 ≤ keptDim (spec c) p ∧ keptDim (spec c) p ≤ D ∧ keptDim (spec c) p ≤ (spec c).length) ∧
+    (t'.WF ∧ t'.LWF ∧ t'.root = t.root ∧ (∀ k, t'.N k = none ↔ t.N k = none) ∧
+      (∀ k, t'.openAxes k = t.openAxes k)) ∧
+    (∀ e ∈ t'.nodes, ∀ q ∈ t'.legPairs e.1, q.2.dim ≤ D) := by
+  have hk : ∀ c, 1 ≤ keptDim (spec c) p ∧ keptDim (spec c) p ≤ D ∧ keptDim (spec c) p ≤ (spec c).length := by
+    intro c
+    obtain ⟨hs, hnn, hd⟩ := hspec c
+    obtain ⟨h1, h2, h3⟩ := keptDim_bounds (spec c) p hs hnn hd hp
+    exact ⟨h1, h3 D hD, h2⟩
+  obtain ⟨w, l, R, N, _, o⟩ := recursive_truncation_core_structure h hl hs
+  refine ⟨hk, ⟨w, l, R, N, o⟩, ?_⟩
+  intro e he q hq
+  obtain ⟨c', hc'⟩ := hbond e he q hq
+  rw [hc']
+  exact (hk c').2.1
+
+/-- spectra and parameters for the instance below: `max_bond_dim = 2`, tolerances 0 -/
+def exSpec : Id → List Rat := fun c => if c = 2 then [4, 2, 1] else if c = 3 then [3, 1] else [5, 0]
+def exPrm : Params := exP (some 2) (.fin 0) (.fin 0) false false true
+
+-- the kept dimensions: the cap applies at the bond above `2`, the zero is dropped at the bond above `4`
+example : (fun c => keptDim (exSpec c) exPrm) 2 = 2 ∧ keptDim (exSpec 3) exPrm = 2 ∧ keptDim (exSpec 4) exPrm = 1 := by
+  decide +kernel
+
+-- all hypotheses of `recursive_truncation_bonds_le_partial` hold on the chain-with-a-branch (whose bond `1 - 2` has
+-- dimension 3 before): in particular `hbond` - the model's result carries exactly the kept dimensions on its bonds
+set_option maxRecDepth 16384 in
+example : ∃ t t', TRunL TTN.empty buildOps t ∧ t.WF ∧ t.LWF ∧
+    t.recursiveTruncation (fun c => keptDim (exSpec c) exPrm) = some t' ∧
+    exPrm.Valid ∧ (∀ c, exSpec c ≠ [] ∧ NonNeg (exSpec c) ∧ Desc (exSpec c)) ∧
+    (∀ e ∈ t'.nodes, ∀ q ∈ t'.legPairs e.1, ∃ c' ∈ [2, 3, 4], q.2.dim = keptDim (exSpec c') exPrm) ∧
+    t.legPairs 2 = [(1, ⟨100, 3⟩), (4, ⟨102, 2⟩)] ∧
+    t'.legPairs 2 = [(1, ⟨1000000, 2⟩), (4, ⟨1000002, 1⟩)] :=
+  ⟨_, _, .cons ⟨rfl, rfl⟩ trivial rfl (.cons trivial ⟨_, rfl, rfl⟩ rfl (.cons trivial ⟨_, rfl, rfl⟩ rfl
+      (.cons trivial ⟨_, rfl, rfl⟩ rfl (.nil _)))),
+    (builtL_labels (show TRunL TTN.empty buildOps _ from
+      .cons ⟨rfl, rfl⟩ trivial rfl (.cons trivial ⟨_, rfl, rfl⟩ rfl (.cons trivial ⟨_, rfl, rfl⟩ rfl
+        (.cons trivial ⟨_, rfl, rfl⟩ rfl (.nil _)))))).1,
+    (builtL_labels (show TRunL TTN.empty buildOps _ from
+      .cons ⟨rfl, rfl⟩ trivial rfl (.cons trivial ⟨_, rfl, rfl⟩ rfl (.cons trivial ⟨_, rfl, rfl⟩ rfl
+        (.cons trivial ⟨_, rfl, rfl⟩ rfl (.nil _)))))).2,
+    rfl, by decide +kernel,
+    (by
+      intro c
+      unfold exSpec
+      by_cases h2 : c = 2
+      · simp only [h2, if_true]; exact ⟨by decide, by decide +kernel, by decide +kernel⟩
+      · by_cases h3 : c = 3
+        · simp only [h3, if_true]; exact ⟨by decide, by decide +kernel, by decide +kernel⟩
+        · simp only [h2, h3, if_false]; exact ⟨by decide, by decide +kernel, by decide +kernel⟩),
+    by decide +kernel, by decide +kernel, by decide +kernel⟩
+
+end bond_dims
 
 /-! ### Value level (`Value.lean`, `ValueRun.lean`): non-vacuity -/
 
